@@ -201,7 +201,7 @@ pub fn differential(prog: &Program, site: &str, family: &str, case: &Value, ctx:
                 rep.findings.push(Finding {
                     property: p,
                     class: format!("go.{}", rules.join("+")),
-                    site: site.to_string(),
+                    site: format!("{};goerr={}", site, normalise_msg(&first.msg)),
                     detail: format!("line {}: {}", first.line, first.msg),
                     replay: replay_base(json!({"go_errors": errs.iter().take(5).map(|e| format!("{}:{}: {}", e.rule, e.line, e.msg)).collect::<Vec<_>>(), "go_text": gr.text})),
                 });
